@@ -31,6 +31,8 @@ func main() {
 	switch kind {
 	case "c06":
 		genC06(cw, *seed, *tier)
+	case "c09":
+		genC09(cw, *seed, *tier)
 	default:
 		fmt.Fprintln(os.Stderr, "unknown kind", kind)
 		os.Exit(2)
